@@ -50,7 +50,64 @@ const SMALL: LinParams = LinParams {
 };
 
 fn knapsack() -> BoxedStrategy<LinCase> {
-    (15usize..=28, 1usize..=3)
+    knapsack_of(15, 28)
+}
+
+/// small knapsacks whose objective is rescaled: values that differ in the fifth digit (10000 + d,
+/// 1e6 + d: a default gap or a pruning slack shows as a wrong "Optimal") or lie below one (v / 100,
+/// v / 1000: a relative gap mistaken for an absolute one shows the same way)
+fn rescaled_knapsack() -> BoxedStrategy<LinCase> {
+    (knapsack_of(6, 14), 0u8..4)
+        .prop_map(|(mut m, mode)| {
+            for v in m.obj.iter_mut() {
+                *v = match mode {
+                    0 => 10000.0 + (*v as i64 % 3) as f64,
+                    1 => *v / 100.0,
+                    2 => 1_000_000.0 + (*v as i64 % 2) as f64,
+                    _ => *v / 1000.0,
+                };
+            }
+            m
+        })
+        .boxed()
+}
+
+/// "pick exactly k of n" with values that differ in the last digit only and a capacity row that
+/// excludes some picks: the relaxation bound is tight from the start, so whether the first integer
+/// point found is also returned as Optimal depends only on the gap in force
+fn near_tie_selection() -> BoxedStrategy<LinCase> {
+    (3usize..=8)
+        .prop_flat_map(|n| {
+            (
+                proptest::collection::vec(0i32..=2, n),
+                proptest::collection::vec(1i32..=12, n),
+                1usize..=3,
+                30u32..=80,
+                prop_oneof![Just(10000.0), Just(1_000_000.0), Just(250_000.0)],
+                any::<bool>(),
+            )
+        })
+        .prop_map(|(deltas, weights, k, fill, base, maximise)| {
+            let n = deltas.len();
+            let k = k.min(n - 1).max(1);
+            let total: i32 = weights.iter().sum();
+            let cap = ((total as f64) * (fill as f64) / 100.0).floor().max(*weights.iter().min().unwrap() as f64 * k as f64);
+            LinCase {
+                vars: (0..n).map(|i| (format!("x{i}"), Dom::Bool)).collect(),
+                rows: vec![
+                    LinRow { name: "cap".into(), coef: weights.iter().map(|v| *v as f64).collect(), rel: R::Le, rhs: cap },
+                    LinRow { name: "pick".into(), coef: vec![1.0; n], rel: R::Eq, rhs: k as f64 },
+                ],
+                obj: deltas.iter().map(|d| base + *d as f64).collect(),
+                offset: 0.0,
+                sense: if maximise { Sense::Max } else { Sense::Min },
+            }
+        })
+        .boxed()
+}
+
+fn knapsack_of(min_items: usize, max_items: usize) -> BoxedStrategy<LinCase> {
+    (min_items..=max_items, 1usize..=3)
         .prop_flat_map(|(n, rows)| {
             (
                 proptest::collection::vec(1i32..=40, n),
@@ -216,7 +273,7 @@ impl Prop for C15 {
         "C15"
     }
     fn strategy(&self, _tier: Tier) -> BoxedStrategy<Case> {
-        let model = prop_oneof![4 => lin_case(SMALL), 5 => knapsack()];
+        let model = prop_oneof![4 => lin_case(SMALL), 5 => knapsack(), 3 => rescaled_knapsack(), 3 => near_tie_selection()];
         let time = prop_oneof![
             4 => Just(None),
             1 => Just(Some(0u64)),
@@ -225,6 +282,8 @@ impl Prop for C15 {
             1 => Just(Some(100)),
             1 => Just(Some(1_000)),
             1 => Just(Some(1_000_000)),
+            // a limit that never fires: setting one must not change what "Optimal" means
+            2 => Just(Some(30_000_000)),
         ];
         let gap = prop_oneof![3 => Just(0u8), 5 => 1u8..=5, 2 => 6u8..=8];
         let node = prop_oneof![
